@@ -132,6 +132,7 @@ static void release_all_blocks(void)
 /* ------------------------------------------------------------------ */
 /* Guarded arenas                                                      */
 
+static int fast_mode;         /* C08: skip arena snapshots (less noise in address traces) */
 #define NARENA 5
 #define ADATA (8 * PAGE)
 enum { A_IN = 0, A_OUT = 1, A_KEY = 2, A_AUX = 3, A_TW = 4 };
@@ -171,6 +172,7 @@ static uint8_t *place(int a, size_t len, char mode, unsigned align)
 
 static void arenas_snapshot(void)
 {
+    if (fast_mode) return;
     for (int i = 0; i < NARENA; i++)
         memcpy(snap[i], arena[i], ADATA);
 }
@@ -179,6 +181,7 @@ static void arenas_snapshot(void)
 static long arenas_stray(const uint8_t *out, size_t outlen)
 {
     long n = 0;
+    if (fast_mode) return 0;
     for (int i = 0; i < NARENA; i++) {
         for (size_t j = 0; j < ADATA; j++) {
             const uint8_t *p = arena[i] + j;
@@ -269,6 +272,9 @@ static __thread size_t jcap, jlen;
 static void jput(const char *s)
 {
     size_t n = strlen(s);
+    /* one large buffer up front: the allocation pattern of the harness must not depend
+       on the data (the address traces of C08 are compared across secret values) */
+    if (!jb) { jcap = 8u << 20; jb = malloc(jcap); }
     if (jlen + n + 1 > jcap) { jcap = (jcap + n) * 2 + 1024; jb = realloc(jb, jcap); }
     memcpy(jb + jlen, s, n + 1);
     jlen += n;
@@ -374,6 +380,10 @@ static void on_crash(int sig)
     _exit(128 + sig);
 }
 
+/* markers that delimit the library call in an instruction/address trace (C08) */
+void __attribute__((noinline)) drv_mark_begin(void) { __asm__ volatile("" ::: "memory"); }
+void __attribute__((noinline)) drv_mark_end(void) { __asm__ volatile("" ::: "memory"); }
+
 /* per-call prologue/epilogue */
 static void call_begin(void)
 {
@@ -381,9 +391,11 @@ static void call_begin(void)
     arenas_snapshot();
     paint_stack();
     in_lib = 1;
+    drv_mark_begin();
 }
 static void call_end(void)
 {
+    drv_mark_end();
     in_lib = 0;
 }
 static void log_alloc(const uint8_t *out, size_t outlen)
@@ -997,6 +1009,7 @@ static int run_lines(char **lines, int from, int to)
         crash_armed = 1;
         if (!strcmp(opname, "set")) {
             if (arg("paint")) paint = (int)argi("paint", -1);
+            if (arg("fast")) fast_mode = (int)argi("fast", 0);
         } else if (!strcmp(opname, "env")) do_env();
         else if (!strcmp(opname, "layout")) do_layout();
         else if (!strcmp(opname, "share")) do_share();
